@@ -136,24 +136,24 @@ package iam
 
 //@ func (Wrapper).presentationDefinitionForScope
 //@   prop C02
-//@   assume-benign
+//@   modifies nothing
 //@   ensures [definitions-of-the-requested-scope] isNilIface(result.1) ==> isNilIface(ret(call (policy.PDPBackend).PresentationDefinitions #1).1)
 //@        && result.0 == ret(call (policy.PDPBackend).PresentationDefinitions #1).0 && arg(call (policy.PDPBackend).PresentationDefinitions #1, 2) == scope
 
 //@ func oauthError
 //@   prop C02
-//@   assume-benign
+//@   modifies nothing
 
 //@ func (Wrapper).s2sNonceStore
 //@   prop C02 C05
-//@   assume-benign
+//@   modifies nothing
 //@   ensures !isNilIface(result)
 //@   call (storage.SessionDatabase).GetStore #1 requires [nonce-marks-outlive-the-acceptance-window-of-the-presentation] int64(arg(1)) >= int64(s2sMaxPresentationValidity) + 2*int64(s2sMaxClockSkew)
 
 // The nonce is stored on every path that read it (burned regardless of the outcome), and success means it was not seen before.
 //@ func (Wrapper).validateS2SPresentationNonce
 //@   prop C02 C05
-//@   assume-benign
+//@   modifies nothing
 //@   ensures [fresh-nonce-only] isNilIface(result) ==> ret(call extractNonce #1).0 != ""
 //@        && did(call (storage.SessionStore).Get #1) && !isNilIface(ret(call (storage.SessionStore).Get #1)) && ret(call errors.Is #1) == true
 //@        && arg(call (storage.SessionStore).Get #1, 1) == ret(call extractNonce #1).0
@@ -202,14 +202,14 @@ package iam
 
 //@ func (Wrapper).accessTokenServerStore
 //@   prop C02
-//@   assume-benign
+//@   modifies nothing
 //@   ensures !isNilIface(result)
 //@ func crypto.GenerateNonce
 //@   trusted
 //@   benign
 //@ func (*PEXConsumer).credentialMap
 //@   prop C02
-//@   assume-benign
+//@   modifies nothing
 //@ func resolveInputDescriptorValues
 //@   prop C02
 //@   assume-benign
@@ -263,7 +263,7 @@ package iam
 
 //@ func (Wrapper).oauthCodeStore
 //@   prop C02
-//@   assume-benign
+//@   modifies nothing
 //@   ensures !isNilIface(result)
 
 // A token is issued only for a code that was taken out of the store by this request (GetAndDelete),
@@ -286,15 +286,15 @@ package iam
 
 //@ func (Wrapper).oauthClientStateStore
 //@   prop C02
-//@   assume-benign
+//@   modifies nothing
 //@   ensures !isNilIface(result)
 //@ func (Wrapper).oauthNonceStore
 //@   prop C02
-//@   assume-benign
+//@   modifies nothing
 //@   ensures !isNilIface(result)
 //@ func (OAuthSession).redirectURI
 //@   prop C02
-//@   assume-benign
+//@   modifies nothing
 // Success only if the (single, common) nonce was taken out of the nonce store by this request and
 // the state stored with it is the state presented.
 // It is never called for an envelope without presentations: with none, no nonce is missing, nothing is
@@ -309,10 +309,10 @@ package iam
 //@        && len(nonces) == 1 && arg(call (storage.SessionStore).GetAndDelete #1, 1) == nonces[0] && state == stateFromNonce
 //@ func withCallbackURI
 //@   prop C02
-//@   assume-benign
+//@   modifies nothing
 //@ func (Wrapper).nextOpenID4VPFlow
 //@   prop C02
-//@   assume-benign
+//@   modifies nothing
 //@ func http.AddQueryParams
 //@   trusted
 //@   benign
@@ -346,11 +346,11 @@ package iam
 
 //@ func (Wrapper).authzRequestObjectStore
 //@   prop C05
-//@   assume-benign
+//@   modifies nothing
 //@   ensures !isNilIface(result)
 //@ func (Wrapper).useNonceOnceStore
 //@   prop C05
-//@   assume-benign
+//@   modifies nothing
 //@   ensures !isNilIface(result)
 //@   call (storage.SessionDatabase).GetStore #1 requires [jti-marks-outlive-the-access-token] int64(arg(1)) >= int64(accessTokenValidity)
 //@ func storage.WithTTL
@@ -413,7 +413,7 @@ package iam
 //@   benign
 //@ func (Wrapper).userRedirectStore
 //@   prop C05
-//@   assume-benign
+//@   modifies nothing
 //@   ensures !isNilIface(result)
 //@ func (Wrapper).handleUserLanding
 //@   prop C05
@@ -466,7 +466,7 @@ package iam
 //@   benign
 //@ func parseJWTClaims
 //@   prop C17
-//@   assume-benign
+//@   modifies nothing
 //@ func (oauthParameters).get
 //@   prop C17
 //@   pure heap
@@ -488,7 +488,7 @@ package iam
 // Same key: SHA-256 JWK thumbprints of the configuration key and of the key the signature was verified with are equal.
 //@ func compareThumbprint
 //@   prop C17
-//@   assume-benign
+//@   modifies nothing
 //@   ensures [thumbprints-equal] isNilIface(result) ==> did(call bytes.Equal #1) && ret(call bytes.Equal #1) == true
 //@        && arg(call bytes.Equal #1, 0) == ret(call (jwk.Key).Thumbprint #1).0 && arg(call bytes.Equal #1, 1) == ret(call (jwk.Key).Thumbprint #2).0
 //@        && arg(call (jwk.Key).Thumbprint #1, 0) == configurationKey && arg(call (jwk.Key).Thumbprint #2, 0) == ret(call jwk.FromRaw #1).0
@@ -528,12 +528,12 @@ package iam
 //@ func (Wrapper).getClientMetadataFromRequest
 //@   prop C19
 //@   safety
-//@   assume-benign
+//@   modifies nothing
 //@   ensures [metadata-or-error] result.1 == nil ==> result.0 != nil
 //@ func (Wrapper).getPresentationDefinitionFromRequest
 //@   prop C19
 //@   safety
-//@   assume-benign
+//@   modifies nothing
 //@   ensures [definition-or-error] result.1 == nil ==> result.0 != nil
 //@   ensures [a-definition-is-parsed-against-the-schema-or-retrieved] result.1 == nil ==>
 //@        (did(call pe.ParsePresentationDefinition #1) && isNilIface(ret(call pe.ParsePresentationDefinition #1).1) && result.0 == ret(call pe.ParsePresentationDefinition #1).0)
